@@ -13,7 +13,8 @@ COQ_BRANCHES = ("MemoRx.case20_branches", "MemoRx.n_branches20")
 SHARD = 40
 RULE = ("1-3 unicode memos (unique texts, 1..120 bytes, multi-byte characters split across grams) each segmented by the "
         "real Memoer.rend with one of the four zero codes x b64/b2 heads, gram sizes from the minimum upwards (also "
-        "requested sizes below the minimum), 3 signers; all grams delivered to a real receiving Memoer as a permutation "
+        "requested sizes below the minimum), 3 signers; on 40% of the senders a configuration history (.curt / .code / "
+        ".size setters in random order, sizes at and around the minimum of each (curt, code) pair) precedes the send; all grams delivered to a real receiving Memoer as a permutation "
         "with duplicates, interleaved across memos, sometimes with a gram withheld; serviced after every datagram, "
         "only at the end, once-style, or stage by stage; non-trivial = some memo has >= 2 grams and the delivery is "
         "not the send order, or has a duplicate, or memos are interleaved")
@@ -27,8 +28,24 @@ ALPHABET = "abcdefghijklmnopqrstuvwxyz ABC 0123456789 é ü € 中 \U0001f600"
 
 # --------------------------------------------------------------------------- cases
 
-def _memo(text, code="bAAA", curt=False, size=None, signer=None, src=1, mid=1):
-    return {"text": text, "code": code, "curt": curt, "size": size, "signer": signer, "src": src, "mid": mid}
+def _memo(text, code="bAAA", curt=False, size=None, signer=None, src=1, mid=1, hist=None):
+    """code/curt/size are what the sending Memoer is constructed with; hist = setter calls made on it afterwards
+    (["curt", bool] | ["size", int] | ["code", str]) before the memo is sent."""
+    m = {"text": text, "code": code, "curt": curt, "size": size, "signer": signer, "src": src, "mid": mid}
+    if hist:
+        m["hist"] = hist
+    return m
+
+
+def _final(memo):
+    """(code, curt) in force when the memo is sent"""
+    code, curt = memo["code"], memo["curt"]
+    for op in memo.get("hist", []):
+        if op[0] == "code":
+            code = op[1]
+        elif op[0] == "curt":
+            curt = op[1]
+    return code, curt
 
 
 def _min_size(code, curt):
@@ -53,6 +70,21 @@ def directed():
             # size below the minimum is raised by the setter; short memo in one gram (the curt count defect, fixed)
             out.append({"authic": False, "memos": [_memo("abc%d" % k, code, curt, 6, sg, 1, k)], "schedule": "inorder", "svc": "all"})
             out.append({"authic": False, "memos": [_memo("x%d" % k, code, curt, None, sg, 2, k)], "schedule": "inorder", "svc": "end"})
+    # configuration histories on one Memoer before sending: every (curt, code) pair at its minimum size, then
+    # the encoding / code / size switched in different orders
+    k = 100
+    for code in mc.ZERO_CODES:
+        sg = 0
+        for curt in (True, False):
+            ms = _min_size(code, curt)
+            other = [c for c in mc.ZERO_CODES if c != code]
+            for hist in ([["curt", not curt]], [["curt", not curt], ["curt", curt]], [["code", other[0]]], [["code", other[1]], ["curt", not curt]],
+                         [["curt", not curt], ["size", 6]], [["size", 6], ["curt", not curt], ["code", other[2]]],
+                         [["size", ms + 3], ["code", other[1]], ["size", 1]]):
+                k += 1
+                fc, _ = _final({"code": code, "curt": curt, "hist": hist})
+                out.append({"authic": fc in mc.SIGNED, "schedule": "inorder", "svc": "all",
+                            "memos": [_memo("config history %d wörld € " % k * 4, code, curt, ms, sg, 1, k, hist)]})
     # two memos interleaved from different sources, one gram withheld from the second
     out.append({"authic": False, "memos": [_memo("first memo first memo", "bAAA", False, 38, None, 1, 50),
                                            _memo("second memo second memo", "bAAE", True, 40, None, 2, 51)],
@@ -89,16 +121,34 @@ def generate(rng, tier):
             code = rng.choice(mc.ZERO_CODES)
             curt = rng.random() < 0.5
             sg = rng.randrange(3) if code in mc.SIGNED else None
-            any_signed |= sg is not None
             ms = _min_size(code, curt)
             size = rng.choice([ms, ms + 1, ms + 3, ms + 7, ms + 20, ms + 100, 6, None])
             t = _text(rng, used)
             if sg is not None and size is not None and size < ms + 20 and len(t.encode()) > 60:
                 size = ms + 20                           # keep signed cases small
-            memos.append(_memo(t, code, curt, size, sg, rng.choice([1, 2, 3]), 100 * i + j))
+            hist = None
+            if size is not None and rng.random() < 0.4:
+                hist = []
+                for _ in range(rng.randint(1, 4)):
+                    r = rng.random()
+                    if r < 0.45:
+                        hist.append(["curt", rng.random() < 0.5])
+                    elif r < 0.75:
+                        c2 = rng.choice(mc.ZERO_CODES)
+                        hist.append(["code", c2])
+                    else:
+                        c2, b2 = _final({"code": code, "curt": curt, "hist": hist})
+                        hist.append(["size", rng.choice([1, 6, _min_size(c2, b2), _min_size(c2, b2) + rng.randint(1, 9), 170])])
+                fc, _ = _final({"code": code, "curt": curt, "hist": hist})
+                if sg is None and (fc in mc.SIGNED or any(o[0] == "code" and o[1] in mc.SIGNED for o in hist)):
+                    sg = rng.randrange(3)
+                any_signed |= fc in mc.SIGNED
+                if fc in mc.SIGNED and len(t.encode()) > 60:
+                    hist.append(["size", _min_size(fc, _final({"code": code, "curt": curt, "hist": hist})[1]) + 20])
+            memos.append(_memo(t, code, curt, size, sg, rng.choice([1, 2, 3]), 100 * i + j, hist))
         sched = rng.choice(["inorder", "shuffle", "shuffle", "shuffle+dups", "shuffle+dups", "zeroth-first-shuffle",
                             "reverse", "withhold", "double"])
-        authic = any_signed and all(m["signer"] is not None for m in memos) and rng.random() < 0.8
+        authic = any_signed and all(_final(m)[0] in mc.SIGNED for m in memos) and rng.random() < 0.8
         out.append({"authic": authic, "memos": memos, "schedule": sched, "seed": rng.randrange(1 << 30),
                     "svc": rng.choice(["end", "end", "all", "all", "once", "split"])})
     return out
@@ -148,9 +198,11 @@ def _sender(memo):
 
     vid = vids[memo["signer"]] if memo["signer"] is not None else None
     m = Sender(code=memo["code"], curt=memo["curt"], size=memo["size"], keep=keep, vid=vid)
+    for op in memo.get("hist", []):
+        setattr(m, op[0], op[1])                    # the real property setters
     m.slog = []
     m.mids = [mc.mid_of(memo["mid"])]
-    return m, vid
+    return m, (vid if m.code in mc.SIGNED else None)
 
 
 def _ops(case, sent):
@@ -181,7 +233,7 @@ def run_impl(case):
         except Exception as ex:
             grams, exc = None, exn_kind(ex)
         slog += tx.slog
-        sent.append({"grams": grams, "exc": exc, "size": tx.size, "vid": vid})
+        sent.append({"grams": grams, "exc": exc, "size": tx.size, "vid": vid, "code": tx.code, "curt": bool(tx.curt)})
     sched, ops = _ops(case, sent)
     rx = mc.new_receiver(case["authic"])
     excs = mc.run_rx_ops(rx, ops)
@@ -215,9 +267,23 @@ def _memo_verdicts(case, obs):
     return out
 
 
+def _count_in_header(gram, curt):
+    from hio.help import helping
+    return int.from_bytes(gram[3:6], "big") if curt else helping.b64ToInt(gram[4:8])
+
+
 def oracle(case, obs):
     if any(obs["excs"]):
         return f"receive servicing raised {obs['excs']}"
+    for memo, s in zip(case["memos"], obs["sent"]):
+        if s["grams"]:
+            grams = [bytes.fromhex(g) for g in s["grams"]]
+            big = [len(g) for g in grams if len(g) > s["size"]]
+            if big:
+                return f"memo {memo['text']!r}: grams of {big} bytes exceed .size={s['size']}"
+            cnt = _count_in_header(grams[0], s["curt"])
+            if cnt != len(grams):
+                return f"memo {memo['text']!r}: zeroth gram announces {cnt} grams but {len(grams)} were produced"
     vs = _memo_verdicts(case, obs)
     bad = [d for st, d in vs if st != "ok"]
     if bad:
@@ -249,7 +315,7 @@ def classify(case, obs, why):
         if st == "ok":
             continue
         sched = [list(x) for x in obs["sched"]]
-        if st == "undelivered" and memo["code"] in mc.SIGNED:
+        if st == "undelivered" and s["code"] in mc.SIGNED:
             z = _first(sched, mi, 0)
             lost = [gi for gi in range(1, len(s["grams"]))
                     if all(pos < z for pos, x in enumerate(sched) if x == [mi, gi])]
@@ -301,8 +367,9 @@ def distribution(cases, obs):
         d["schedules"][k] = d["schedules"].get(k, 0) + 1
         d["svc"][c["svc"]] = d["svc"].get(c["svc"], 0) + 1
         for m, s in zip(c["memos"], o["sent"]):
-            d["codes"][m["code"]] = d["codes"].get(m["code"], 0) + 1
-            d["curt"] += bool(m["curt"])
+            d["codes"][s["code"]] = d["codes"].get(s["code"], 0) + 1
+            d["curt"] += bool(s["curt"])
+            d["with_config_history"] = d.get("with_config_history", 0) + bool(m.get("hist"))
             if s["grams"] is None:
                 d["rend_raised"] += 1
             else:
@@ -320,7 +387,7 @@ def to_coq(case, obs):
     sents = []
     for memo, s in zip(case["memos"], obs["sent"]):
         params = ("{| MemoGram.r_code := %s; MemoGram.r_curt := %s; MemoGram.r_size := %s; MemoGram.r_mid := %s; "
-                  "MemoGram.r_vid := %s |}" % (CODES[memo["code"]], coq_bool(memo["curt"]), coq_nat(min(s["size"], 4999)),
+                  "MemoGram.r_vid := %s |}" % (CODES[s["code"]], coq_bool(s["curt"]), coq_nat(min(s["size"], 4999)),
                                                coq_bytes(mc.mid_of(memo["mid"]).encode()),
                                                coq_bytes(s["vid"].encode() if s["vid"] else b"")))
         if s["grams"] is None:
@@ -328,8 +395,13 @@ def to_coq(case, obs):
         else:
             grams = "(Ok %s)" % coq_list([mc.hexb(g) for g in s["grams"]], "bytes")
         req = "(@None nat)" if memo["size"] is None else f"(Some {coq_nat(memo['size'])})"
-        sents.append("{| MemoRx.s_params := %s; MemoRx.s_req := %s; MemoRx.s_text := %s; MemoRx.s_grams := %s |}" % (
-            params, req, coq_bytes(memo["text"].encode()), grams))
+        hist = [("(MemoGram.SetCurt %s)" % coq_bool(o[1])) if o[0] == "curt" else
+                ("(MemoGram.SetCode %s)" % CODES[o[1]]) if o[0] == "code" else
+                ("(MemoGram.SetSize %s)" % coq_nat(o[1])) for o in memo.get("hist", [])]
+        sents.append("{| MemoRx.s_params := %s; MemoRx.s_icode := %s; MemoRx.s_icurt := %s; MemoRx.s_req := %s; "
+                     "MemoRx.s_hist := %s; MemoRx.s_text := %s; MemoRx.s_grams := %s |}" % (
+                         params, CODES[memo["code"]], coq_bool(memo["curt"]), req, coq_list(hist, "MemoGram.cfgop"),
+                         coq_bytes(memo["text"].encode()), grams))
     st = [f"({mc.hexb(v)}, {mc.hexb(m)}, {mc.hexb(sg)})" for v, m, sg in obs["sign"]]
     rx = mc.coq_rx_case(case["authic"], obs["ops"], obs, obs["excs"])
     return "{| MemoRx.k_sign := %s; MemoRx.k_sent := %s; MemoRx.k_rx := %s |}" % (
